@@ -577,8 +577,9 @@ func (s *verifC1011Suite) runHistory(c *C, chk *kit.Check, prop string, hi int, 
 	// (no fakeBackend.addSnapApp here: it makes ReadInfo hand out one shared
 	// *snap.Info per snap whose SideInfo is overwritten by every later call, so a
 	// refresh to a kept revision would silently target the current one)
-	if rnd.Intn(3) > 0 {
+	if generous := rnd.Intn(3) > 0; generous || fixed != nil {
 		// start with a generous limit so that sequences grow beyond the default
+		// (always for the directed histories, which are written for it)
 		tr := config.NewTransaction(st)
 		tr.Set("core", "refresh.retain", 4+rnd.Intn(3))
 		tr.Commit()
